@@ -329,7 +329,8 @@ class Equation:
 
         enum_metrics = self.metrics is None
 
-        return (enum_int or enum_st) and enum_metrics
+        # The interval needs the position whether or not metrics are collected
+        return enum_int or (enum_st and enum_metrics)
 
     @staticmethod
     def __frac_coords(sexpr: Basic) -> bool:
